@@ -1,6 +1,7 @@
 import PV.Drv.Codec
 import PV.NumFloat
 import PV.Model.Sgp4
+import PV.Spec.Str3
 namespace PV.Drv.Sgp4
 open PV.Drv PV.Sgp4
 
@@ -67,5 +68,20 @@ def sgp4 : Handler := fun args =>
         " ".intercalate (head ++ ["init=ok"] ++ dumpParams p ++ tss.map per)
     | _ => "bad-args"
 
-def handlers : List (String × Handler) := [("sgp4", sgp4)]
+/-- `str3 e incl raan argp M mm bstar ts...` → the published model (Spec.Str3) executed on Float:
+    per ts `px py pz vx vy vz a/a0 isimp`, after `perigee period` -/
+def str3 : Handler := fun args =>
+  match tleOf args with
+  | none => "bad-args"
+  | some (t, tss) =>
+    let d2r (x : Float) : Float := x * (3.141592653589793 / 180.0)
+    let l : Str3.El Float :=
+      { xno := t.mean_motion * (2.0 * 3.141592653589793 / 1440.0), eo := t.excentricity, xincl := d2r t.inclination,
+        omegao := d2r t.arg_perigee, xmo := d2r t.mean_anomaly, xnodeo := d2r t.right_ascension, bstar := t.bstar }
+    let per (s : String) : String :=
+      let (p, v, ratio, simp) := Str3.sgp4 l (parseF s)
+      "| " ++ fmtFs [p.x, p.y, p.z, v.x, v.y, v.z, ratio] ++ (if simp then " 1" else " 0")
+    " ".intercalate ([fmtF (Str3.perigeeKm l), fmtF (Str3.periodMin l)] ++ tss.map per)
+
+def handlers : List (String × Handler) := [("sgp4", sgp4), ("str3", str3)]
 end PV.Drv.Sgp4
